@@ -515,8 +515,12 @@ struct BigInt {
             }
 
             case BigIntOperation::And: {
+                while (index_ != 0U) {
+                    storage_[index_] = 0;
+                    --index_;
+                }
+
                 storage_[0U] &= number;
-                index_ = 0U;
                 break;
             }
 
@@ -549,7 +553,6 @@ struct BigInt {
 
             case BigIntOperation::And: {
                 storage_[0U] &= Number_T(number);
-                index_ = 0U;
                 break;
             }
 
@@ -559,8 +562,9 @@ struct BigInt {
             }
         }
 
+        SizeT32 index = 1U;
+
         if QENTEM_CONST_EXPRESSION (is_bigger_size) {
-            SizeT32 index = 1U;
             number >>= TypeWidth();
 
             while (number != N_Number_T{0}) {
@@ -587,11 +591,6 @@ struct BigInt {
 
                     case BigIntOperation::And: {
                         storage_[index] &= Number_T(number);
-
-                        if (storage_[index] != Number_T(0)) {
-                            index_ = index;
-                        }
-
                         break;
                     }
 
@@ -603,6 +602,18 @@ struct BigInt {
 
                 number >>= TypeWidth();
                 ++index;
+            }
+        }
+
+        if (Operation == BigIntOperation::And) {
+            // Words the operand does not reach are and-ed with zero.
+            while (index_ >= index) {
+                storage_[index_] = 0;
+                --index_;
+            }
+
+            while ((index_ != 0U) && (storage_[index_] == 0)) {
+                --index_;
             }
         }
     }
